@@ -39,9 +39,13 @@ type httpResult struct {
 // do sends one request to the node and classifies the outcome: 2xx/3xx = accepted, 4xx/5xx = rejected (error), aborted connection + panic report = httpPanic.
 func (f *nodeFixture) do(req *http.Request) (httpResult, error) {
 	// the server reports a handler panic together with the client address of the connection: remember which connection carried this request
-	var local string
+	// (net/http retries an idempotent request on a fresh connection when the first one is closed without a response: all of them count)
+	var mu sync.Mutex
+	var locals []string
 	req = req.WithContext(httptrace.WithClientTrace(req.Context(), &httptrace.ClientTrace{GotConn: func(info httptrace.GotConnInfo) {
-		local = info.Conn.LocalAddr().String()
+		mu.Lock()
+		locals = append(locals, info.Conn.LocalAddr().String())
+		mu.Unlock()
 	}}))
 	resp, err := httpClient.Do(req)
 	var res httpResult
@@ -50,18 +54,30 @@ func (f *nodeFixture) do(req *http.Request) (httpResult, error) {
 		res.body, _ = io.ReadAll(io.LimitReader(resp.Body, 4<<20))
 		resp.Body.Close()
 	}
-	if local != "" {
-		// the panic report travels through a pipe: give it a moment when the connection was aborted
-		deadline := time.Now().Add(10 * time.Second)
-		for {
-			if report := f.log.takeFor(local); report != "" {
-				return res, httpPanic{report: report}
+	mu.Lock()
+	addrs := append([]string{}, locals...)
+	mu.Unlock()
+	// the panic report travels through a pipe: give it a moment when the connection was aborted
+	// every connection that was dropped without a response should have a report: all of them when the request failed, all but the last when a retry succeeded
+	need := len(addrs)
+	if err == nil {
+		need--
+	}
+	deadline := time.Now().Add(10 * time.Second)
+	var reports []string
+	for {
+		for _, a := range addrs {
+			if report := f.log.takeFor(a); report != "" {
+				reports = append(reports, report)
 			}
-			if err == nil || time.Now().After(deadline) {
-				break
-			}
-			time.Sleep(20 * time.Millisecond)
 		}
+		if len(reports) >= need || time.Now().After(deadline) {
+			break
+		}
+		time.Sleep(20 * time.Millisecond)
+	}
+	if len(reports) > 0 {
+		return res, httpPanic{report: strings.Join(reports, "\n----\n")}
 	}
 	if err != nil {
 		return res, fmt.Errorf("transport: %w", err)
